@@ -11,8 +11,11 @@ EXPLANATION = (
     'ReadyToSign is constructed only after registration succeeded and can_sign_current_epoch() was true (or by staying in it), '
     'and any epoch change leaves it; (d) R13 offset algebra shared by signer and aggregator; (e) signer and aggregator apply the '
     'same offsets at the key-rotation sites (recording epoch for the saved initializer / the opened round, retrieval epoch for the '
-    'initializer used to sign / the current signers, next retrieval epoch for the next signers). Does not decide exactly-once under '
-    'faults nor acceptance by the aggregator.')
+    'initializer used to sign / the current signers, next retrieval epoch for the next signers); (f) epoch ROLES: every field of the '
+    'signer\'s EpochData comes from its own source (registration parameters from configuration_for_registration, signing configuration '
+    'from configuration_for_aggregation, current / next signers and the epoch from the matching fields of the fetched registrations - '
+    'traced through the runner and the state machine), the stake distribution is refreshed for the NODE\'s epoch and the epoch settings '
+    'recorded for the AGGREGATOR\'s. Does not decide exactly-once under faults nor acceptance by the aggregator.')
 
 ASSUMPTIONS = ['exactly-once under publish failures / restarts is a history property (not decided)']
 
@@ -275,3 +278,98 @@ def run(ctx):
             R.ok('e', 'R5', 'aggregator inform_epoch: current signers <- retrieval epoch, next signers <- next retrieval epoch', str(sorted(offs)), f.loc())
         else:
             R.violation('e', 'R5', 'aggregator inform_epoch: current signers <- retrieval epoch, next signers <- next retrieval epoch', 'offset-site:aggregator-inform-epoch', str(sorted(offs)), f.loc())
+
+
+# ---------------------------------------------------------------- added after seeds C20-1 / C20-2: epoch ROLES
+SM = 'mithril_signer::runtime::state_machine::StateMachine::'
+SES = '<mithril_signer::services::epoch_service::MithrilEpochService as mithril_signer::services::epoch_service::EpochService>::inform_epoch_settings'
+ED = 'mithril_signer::services::epoch_service::EpochData'
+
+
+def _role_rules(ctx):
+    from props.common import deep_origins
+    R = ctx.report
+    ws = ctx.ws
+    R.clause('f', 'each epoch-dependent input is taken in its own role (node epoch vs aggregator epoch; registration vs aggregation configuration)')
+    # f1: the signer's EpochData, field by field
+    f = ctx.try_fn('f', SES)
+    if f is not None:
+        lf = f.logic()
+        try:
+            adt = ws.adt(ED)
+            fields = [fd['n'] for fd in adt['variants'][0]['fields']]
+        except Exception as e:  # noqa
+            R.missing('f', e)
+            fields = None
+        NC = 'pty:MithrilNetworkConfiguration.'
+        roles = {
+            'epoch': (['lty:RegisteredSigners.epoch'], ['call:*get_current_time_point*']),
+            'registration_protocol_parameters': ([NC + 'configuration_for_registration.protocol_parameters*'],
+                                                 [NC + 'configuration_for_aggregation*', NC + 'configuration_for_next_aggregation*']),
+            'allowed_discriminants': ([NC + 'configuration_for_aggregation.enabled_signed_entity_types*'],
+                                      [NC + 'configuration_for_registration*', NC + 'configuration_for_next_aggregation*']),
+            'cardano_transactions_signing_config': ([NC + 'configuration_for_aggregation.signed_entity_types_config*'],
+                                                    [NC + 'configuration_for_registration*', NC + 'configuration_for_next_aggregation*']),
+            'cardano_blocks_transactions_signing_config': ([NC + 'configuration_for_aggregation.signed_entity_types_config*'],
+                                                           [NC + 'configuration_for_registration*', NC + 'configuration_for_next_aggregation*']),
+            'current_signers': (['lty:RegisteredSigners.current_signers'], ['lty:RegisteredSigners.next_signers']),
+            'next_signers': (['lty:RegisteredSigners.next_signers'], ['lty:RegisteredSigners.current_signers']),
+        }
+        aggs = []
+        for g in lf.family():
+            for b in g.body.blocks:
+                if b.cleanup:
+                    continue
+                for (ln, pl, rv) in b.stmts:
+                    if rv[0] == 'agg' and rv[2] == ED:
+                        aggs.append((g, rv, ln))
+        if fields is not None:
+            if not aggs:
+                R.violation('f', 'R5', 'signer inform_epoch_settings: EpochData built from the settings', 'epoch_data:built', 'no EpochData construction', f.loc())
+            for g, rv, ln in aggs:
+                for name, (req, forb) in roles.items():
+                    if name not in fields:
+                        R.missing('f', 'EpochData has no field %s' % name)
+                        continue
+                    # traced through the runner and the state machine up to where the values were fetched (rename / parameter-order proof)
+                    og = deep_origins(ws, g, rv[5][fields.index(name)], True, depth=4)
+                    miss = [r for r in req if not has(og, r)]
+                    bad = sorted(o for o in og if any(glob_match(x, o) for x in forb))
+                    inst = 'signer EpochData.%s <- %s' % (name, req[0].replace('pty:MithrilNetworkConfiguration.', '').replace('lty:', 'fetched ').rstrip('*'))
+                    if miss or bad:
+                        R.violation('f', 'R5', inst, 'epoch_data:%s' % name, 'missing %s, taken from another role %s' % (miss, bad[:3]), f.loc())
+                    else:
+                        R.ok('f', 'R5', inst, '', f.loc())
+    # f2: node epoch vs aggregator epoch wherever the runner is told to refresh the stake distribution / the epoch settings
+    lib = [x for x in ws.fns if x.unit.crate == 'mithril_signer' and x.unit.tag == 'lib' and x.root().name.startswith(SM)]
+    for pat, argi, req, forb, what in (
+            ('*::Runner::update_stake_distribution', 1, ['call:*get_current_time_point*'], ['lty:RegisteredSigners.*'],
+             'update_stake_distribution(epoch): the node\'s current time point, never the aggregator\'s registration epoch'),
+            ('*::Runner::inform_epoch_settings', 1, ['lty:RegisteredSigners.epoch'], ['call:*get_current_time_point*'],
+             'inform_epoch_settings(epoch): the aggregator\'s registration epoch'),
+            ('*::Runner::inform_epoch_settings', 2, ['call:*get_mithril_network_configuration*'], [],
+             'inform_epoch_settings(configuration): the fetched network configuration')):
+        sites = [(g, c) for g in lib for c in g.body.calls() if any(glob_match(pat, n) for n in c.names())]
+        inst = 'signer state machine: ' + what
+        if not sites:
+            R.violation('f', 'R5', inst, 'role:%s#%d' % (pat.rsplit('::', 1)[-1], argi), 'no call site in the state machine', None)
+            continue
+        bad = []
+        for g, c in sites:
+            og = deep_origins(ws, g, c.args[argi], True, depth=3)
+            miss = [r for r in req if not has(og, r)]
+            hit = sorted(o for o in og if any(glob_match(x, o) for x in forb))
+            if miss or hit:
+                bad.append('line %s: missing %s, other role %s' % (c.line, miss, hit[:2]))
+        if bad:
+            R.violation('f', 'R5', inst, 'role:%s#%d' % (pat.rsplit('::', 1)[-1], argi), '; '.join(bad[:3]), sites[0][0].loc())
+        else:
+            R.ok('f', 'R5', inst, '%d site(s)' % len(sites), sites[0][0].loc())
+
+
+_run_c20 = run
+
+
+def run(ctx):  # noqa: F811
+    _run_c20(ctx)
+    _role_rules(ctx)
